@@ -144,7 +144,47 @@ func genScenario(r *vh.Rand, idx int) Scenario {
 			return dialV4[r.Intn(len(dialV4))]
 		}
 	}
+	// names derived from the configured patterns: matching ones and near misses
+	derivedName := func() string {
+		if len(sc.Domains) == 0 {
+			return namePool[r.Intn(len(namePool))]
+		}
+		p := strings.TrimSpace(sc.Domains[r.Intn(len(sc.Domains))])
+		base := strings.TrimPrefix(p, "*.")
+		switch r.Intn(12) {
+		case 0:
+			return base
+		case 1:
+			return "x." + base
+		case 2:
+			return "x.y." + base
+		case 3:
+			return "x" + base // no dot before the base
+		case 4:
+			return "." + base
+		case 5:
+			return strings.ToUpper("q." + base)
+		case 6:
+			return base + "."
+		case 7:
+			return "x." + base + ".evil.org"
+		case 8:
+			return p // the pattern text itself
+		case 9:
+			return "x-" + base
+		case 10:
+			return "x..y." + base
+		default:
+			return namePool[r.Intn(len(namePool))]
+		}
+	}
 	check := func() Op {
+		if len(sc.Domains) > 0 && r.Chance(1, 3) {
+			if r.Chance(1, 2) {
+				return opName("probe", derivedName(), probeOnly[r.Intn(len(probeOnly))])
+			}
+			return opName("open", derivedName(), dialV4[r.Intn(len(dialV4))])
+		}
 		switch r.Intn(10) {
 		case 0, 1, 2, 3:
 			return opDest("open", pickDialIP())
